@@ -3,6 +3,7 @@ package checks
 import (
 	"encoding/json"
 	"fmt"
+	"hash/fnv"
 	"regexp"
 	"sort"
 	"strings"
@@ -215,10 +216,29 @@ func diffProgram(t rep.Skipper, r *rep.R, p *ts.Program, o diffOpts) {
 	}
 	c := execCase{Kind: "bash-run", Property: o.Property, Files: files, Main: p.Main, ExpectStdout: ref.Stdout, ExpectStatus: ref.Status, Tags: sortedTags(o.Tags)}
 	out := runExecCase(c)
+	asImport := false
 	if out.OK {
-		return
+		// a third of the single-file programs (chosen by a hash of the text) also run as the text of an IMPORTED file:
+		// top-level code of an imported file runs when it is imported, its names live under a prefix, its meaning is the same
+		h := fnv.New32a()
+		h.Write([]byte(src))
+		if len(files) != 1 || h.Sum32()%3 != 0 {
+			return
+		}
+		c.Files = map[string]string{"main.tsh": "import lb \"lb.tsh\"\n", "lb.tsh": files[p.Main]}
+		c.Main = "main.tsh"
+		c.Note = "the program text as an imported file"
+		r.Class("as-imported-file")
+		out = runExecCase(c)
+		if out.OK {
+			return
+		}
+		asImport = true
 	}
 	sig := rep.Sig{"kind": out.Kind}
+	if asImport {
+		sig["as-import"] = "yes"
+	}
 	if out.ErrClass != "" {
 		sig["error"] = out.ErrClass
 	}
